@@ -43,10 +43,11 @@ impl PossibleRouteMatch for ParamSegment {
         let mut matched_len = 0;
         let mut param_offset = 0;
         let mut param_len = 0;
-        let mut test = path.chars();
+        let mut test = path.chars().peekable();
 
         // match an initial /
-        if let Some('/') = test.next() {
+        if let Some('/') = test.peek() {
+            test.next();
             matched_len += 1;
             param_offset = 1;
         }
@@ -133,10 +134,11 @@ impl PossibleRouteMatch for WildcardSegment {
         let mut matched_len = 0;
         let mut param_offset = 0;
         let mut param_len = 0;
-        let mut test = path.chars();
+        let mut test = path.chars().peekable();
 
         // match an initial /
-        if let Some('/') = test.next() {
+        if let Some('/') = test.peek() {
+            test.next();
             matched_len += 1;
             param_offset += 1;
         }
@@ -174,10 +176,11 @@ impl PossibleRouteMatch for OptionalParamSegment {
         let mut matched_len = 0;
         let mut param_offset = 0;
         let mut param_len = 0;
-        let mut test = path.chars();
+        let mut test = path.chars().peekable();
 
         // match an initial /
-        if let Some('/') = test.next() {
+        if let Some('/') = test.peek() {
+            test.next();
             matched_len += 1;
             param_offset = 1;
         }
